@@ -101,6 +101,30 @@ CHECKS = {
    note='Trusted: Coq kernel; SqlBase/Val model of WHERE/ORDER BY/LIMIT; hand-written skeleton of push/pull/peek/_cull in Cache.v (validated per call). The model has no UNIQUE constraint (C10-F2 is monitor-only). Concurrent clause proved at the atomic layer; atomicity of single calls is C05. Push under a quiet _cull; returned-key identity stated via the inserted row.',
    tech='Coq proof (stable-sort/filter commutation, invariant induction, lexicographic-digit arithmetic, schedule induction) + generated model + differential histories + deterministic-scheduler enumeration',
    ref='7 (C10)'),
+ 'C05': dict(
+   cat='proof',
+   text='Invariant of a micro-step machine (file create/close, BEGIN, body, COMMIT/ROLLBACK, removals, post-commit fetch, lock-free SELECT/open, kill) proved by induction for any number of clients, any programs with well-behaved bodies and any schedule: every committed row refers to a completely written file, a lookup never opens a partial file (it finds the complete file or none: the one tolerated miss), a COMMIT installs exactly its body applied to the current committed state (writers are serial), one client inside a transaction at a time. The body hypotheses are discharged for the real set/add/delete/pop/touch/incr/get/contains bodies of the row model, whose solo run is proved equal to the sequential model that is compared with the implementation after every call. Partial: that SQLite serialises BEGIN IMMEDIATE..COMMIT, that readers see the last committed state and that threads/processes behave as separate connections is not proved; it is exercised: deterministic scheduler over 2-4 clients in own-object, shared-object and forked-process modes, Wing-Gong linearizability monitor against a reference dictionary, event sequences of every call checked against the stage automaton that simulates the machine, lock discipline checked on every merged log. Iteration is not atomic (finding C05-F1).',
+   note='Trusted: Coq kernel; SQLite locking/WAL, CPython thread-local connections, OS processes; the Python reference dictionary of the monitor; the stage automaton accepts a superset of the machine traces (simulation proved one way). The per-call results are compared with the sequential model through the linearization found by the monitor, not through a model run of the same schedule.',
+   tech='Coq inductive invariant over micro-steps of any number of clients (all schedules, kills) + body lemmas for the generated transaction bodies + deterministic-scheduler differential testing with a linearizability monitor and trace automaton',
+   ref='7 (C05)'),
+ 'C06': dict(
+   cat='proof',
+   text='On the same machine, a transact block is one writing call whose body is the composition of its inner calls and whose inner file removals happen while the transaction is open (as the code does): COMMIT is atomic and installs the body on the current state, nobody else can change the committed state while the block holds the lock, ROLLBACK leaves the committed state exactly as it was, other clients spin or time out at BEGIN and never enter the transaction, a call joins an open transaction iff it belongs to the calling thread (generated guard). "Every file of every row still resolves after an abort" is refuted by a vm_compute witness (finding C06-F1..F4, D8) and proved for blocks whose inner calls release no value file. Partial as C05; Cache/Deque/Index/FanoutCache.transact exercised under the scheduler with raise points after every inner call, nesting up to 3, concurrent reader and writer.',
+   note='Trusted: as C05. FanoutCache.transact ordering (shards taken in index order) is generated and monitored, its deadlock-freedom is not proved. Nested stores happen inside the open transaction in the code and before BEGIN in the machine (file creation does not interact with the lock).',
+   tech='Coq machine invariant + vm_compute counterexample + generated nesting guard + scheduler-driven monitors (abort snapshot equality, block atomicity, nesting placement, thread ownership)',
+   ref='7 (C06)'),
+ 'C07': dict(
+   cat='proof',
+   text='Kill is a step of the machine available in every configuration: the invariant (referenced files complete, ownership of unreferenced files, lock consistency) is closed under kills at arbitrary steps for any number of clients; a kill changes neither the committed state nor the files and releases the victim lock; the database only ever changes by a COMMIT that installs a whole body (interrupted call applied entirely or not at all); a free lock is granted at once. Instantiated with the real bodies. Partial: SQLite WAL recovery and lock release on process death are trusted; a kill inside a SQLite call is only sampled. Exercised: every mutating method x value transitions x inside/outside a block, Deque and Index operations, killed before every traced event (os._exit in a forked child), then reopened: contents = completed calls plus possibly the interrupted one, every present key readable, check() reports only unknown files/empty directories, a write succeeds at once, check(fix=True) then check() clean.',
+   note='Trusted: os._exit at an event boundary stands for a kill at that instant; SQLite recovery. Blocks that release a value file and are killed before COMMIT leave a row without its file (finding C07-F1, same root cause as C06-F1).',
+   tech='Coq inductive invariant with kill steps + exhaustive kill-point enumeration on the implementation',
+   ref='7 (C07)'),
+ 'C14': dict(
+   cat='proof',
+   text='On the machine: a call that finds the lock busy and does not retry removes the value file it had written, reports Timeout and leaves database, lock and every other file as they were; with retry it changes nothing while the lock is busy and gets the lock the first time it is free; lock-free lookups are enabled in every configuration and answer from the committed state. Finite case analysis over the delegation table regenerated from fanout.py: every FanoutCache (hence DjangoCache) data operation returns its documented default on Timeout and never raises it; bulk removals resume after a Timeout and add every partial count. Exercised exhaustively: 107 public operations of Cache, FanoutCache, DjangoCache, Deque, Index x inline/file-backed x lock held before the call / taken between the value-file write and BEGIN / released after k failed attempts x retry x settings that turn reads into writes, comparing table, Settings and directory listing before and after.',
+   note='Trusted: as C05. FanoutCache bulk removals wait for the lock even with retry=False (they never raise Timeout; tolerated and counted). FanoutCache.get(expire_time=True, tag=True) returns the bare default on a timeout (allowed by the property text, counted).',
+   tech='Coq machine lemmas + finite case analysis over generated tables + exhaustive fault enumeration on the implementation',
+   ref='7 (C14)'),
 }
 
 def main():
